@@ -80,6 +80,7 @@ type slSum struct {
 	owner            *slGen
 	usesH            bool
 	usesF, usesB     bool
+	usesBY           bool     // the byte-level methods of field.Element the point codec calls (ByteOps)
 	aux              []string // loop bodies, emitted before the function
 	text             string
 	failed           string
@@ -629,6 +630,18 @@ func (f *slFn) bytesExpr(e ast.Expr) (string, int) {
 			}
 		}
 		if s, ok := x.Fun.(*ast.SelectorExpr); ok {
+			if fn, ok := f.g.info.Uses[s.Sel].(*types.Func); ok && fn.FullName() == "(*"+modPath+".Element).Encode" && len(x.Args) == 0 {
+				// the regenerated point encoder (decoder/encoder mode): a fresh buffer, the receiver is only read
+				if len(f.ptrRet(fn)) != 0 || f.ptrWrites(fn, 0) {
+					f.fail("Encode writes its receiver or returns memory of it")
+				}
+				r, _, k := f.opaqueExpr(s.X)
+				if k != kPoint {
+					f.fail("receiver of Encode")
+				}
+				f.sum.usesF, f.sum.usesBY = true, true
+				return fmt.Sprintf("(GenDecode.encode BY F %s)", slAtom(r)), f.newClass()
+			}
 			if id, ok := s.X.(*ast.Ident); ok {
 				if v := f.lookup(id); v != nil && v.kind == kHash && s.Sel.Name == "Sum" && len(x.Args) == 1 {
 					if a, ok := x.Args[0].(*ast.Ident); ok && a.Name == "nil" {
@@ -657,6 +670,12 @@ func (f *slFn) ptrRet(fn *types.Func) []int {
 	r := append([]int{}, a.ret[fn]...)
 	sort.Ints(r)
 	return r
+}
+
+// ptrWrites: may the function write the memory its parameter number idx (receiver first) points to?
+func (f *slFn) ptrWrites(fn *types.Func, idx int) bool {
+	a := newPtrAnalysis()
+	return len(a.analyse(fn)[idx]) > 0
 }
 
 func sameInts(a, b []int) bool {
@@ -954,6 +973,10 @@ func (f *slFn) call(x *ast.CallExpr) (string, int, slKind) {
 	var args []string
 	var argVars []*slVar
 	var argClass []int
+	if s.usesBY {
+		f.sum.usesBY = true
+		args = append(args, "BY")
+	}
 	if s.usesF {
 		f.sum.usesF = true
 		args = append(args, "F")
@@ -2184,6 +2207,23 @@ func (f *slFn) errExpr(e ast.Expr) string {
 				return f.errExpr(x.Args[1])
 			}
 		}
+		if sel, ok := x.Fun.(*ast.SelectorExpr); ok {
+			if fn, ok := f.g.info.Uses[sel.Sel].(*types.Func); ok && fn.FullName() == "(*"+modPath+".Element).Decode" && len(x.Args) == 1 {
+				rv := f.baseVar(sel.X)
+				if rv == nil || rv.kind != kPoint {
+					f.fail("receiver of Decode is not a variable")
+				}
+				data, _ := f.bytesExpr(x.Args[0])
+				if f.ptrWrites(fn, 1) {
+					f.fail("Decode writes its argument")
+				}
+				f.sum.usesF, f.sum.usesBY = true, true
+				f.write(rv, false, "Decode")
+				t := f.fresh()
+				f.emit("let (%s, %s) := GenDecode.decode BY F %s %s", t, rv.name, rv.name, slAtom(data))
+				return t
+			}
+		}
 		r, _, k := f.call(x)
 		if k != kErr {
 			f.fail("call %s does not return an error", nodeText(f.g.imp.fset, x.Fun))
@@ -2465,8 +2505,11 @@ func (g *slGen) fn(s *slSum, fd *ast.FuncDecl) {
 	}
 	b.WriteString(" -/\n")
 	fmt.Fprintf(&b, "def %s", s.leanName)
-	if s.usesF || s.usesB {
+	if s.usesF || s.usesB || s.usesBY {
 		b.WriteString(" {α : Type}")
+	}
+	if s.usesBY {
+		b.WriteString(" (BY : ByteOps α)")
 	}
 	if s.usesF {
 		b.WriteString(" (F : FieldOps α)")
@@ -2623,6 +2666,11 @@ func genBytesMode(outDir string) {
 	for _, r := range codecRoots {
 		g.translate(r)
 	}
+	nCodecS := len(g.order)
+	pointCodecRoots := []string{"Element.Hex", "Element.DecodeHex", "Element.MarshalBinary", "Element.UnmarshalBinary"}
+	for _, r := range pointCodecRoots {
+		g.translate(r)
+	}
 	nCodec := len(g.order)
 	mulRoots := []string{"Element.multiply", "Element.Multiply"}
 	for _, r := range mulRoots {
@@ -2643,7 +2691,10 @@ func genBytesMode(outDir string) {
 		g.order[nXmd:nGroup], groupRoots)
 	g.write(filepath.Join(outDir, "ScalarCodec.lean"), "GenScalarCodec", "import Secp.Spec.Bytes\nimport Secp.Gen.ScalarBytes\n",
 		"/-! `Encode`, `Decode`, `Hex`, `DecodeHex`, `MarshalBinary`, `UnmarshalBinary` of `scalar.go`. An `error` is `none` (nil) or\nthe name of the package's error variable; `encoding/hex` is `Spec.toHex` / `Prim.hexDecodeString`. -/\n", "",
-		g.order[nGroup:nCodec], codecRoots)
+		g.order[nGroup:nCodecS], codecRoots)
+	g.write(filepath.Join(outDir, "ElementCodec.lean"), "GenElementCodec", "import Secp.PrimBytes\nimport Secp.Gen.Decode\n",
+		"/-! `Hex`, `DecodeHex`, `MarshalBinary`, `UnmarshalBinary` of `element.go` over the regenerated `Encode` / `Decode`. -/\n", "",
+		g.order[nCodecS:nCodec], pointCodecRoots)
 	g.write(filepath.Join(outDir, "ElementMul.lean"), "GenElementMul", "import Secp.Gen.ScalarCodec\nimport Secp.Gen.ScalarAPI\nimport Secp.Gen.ElementAPI\n",
 		"/-! `Multiply` and `multiply` of `element.go`: the nil test, the `IsOne` shortcut, the bit expansion, the 256 iterations of the\nladder over the regenerated `Add`/`Double`, the final `set`. -/\n", "open GenScalarCodec\n",
 		g.order[nCodec:], mulRoots)
